@@ -1081,20 +1081,11 @@ class CallMixin:
             uf, measure = self.segcells()
             cands.append((measure(p.a[p.lo + k]), uf(p.a, p.hi) - uf(p.a, p.lo)))
         for pointwise, total in cands:
-            sol = z3.Solver()
-            sol.set("timeout", 3000)
+            from .solve import quick_check
             ax = seqs.global_axioms()
-            for nm in ("W.range", "W.ascii", "pcell.mono"):
-                sol.add(ax[nm])
-            for f in self.global_facts:
-                sol.add(f)
-            for f in st.pc:
-                sol.add(f)
-            sol.add(z3.And(0 <= k, k < n))
-            for f in body_facts:
-                sol.add(f)
-            sol.add(term != pointwise)
-            if sol.check() == z3.unsat:
+            fmls = [ax[nm] for nm in ("W.range", "W.ascii", "pcell.mono")] + list(self.global_facts) + list(st.pc)
+            fmls += [z3.And(0 <= k, k < n)] + list(body_facts) + [term != pointwise]
+            if str(quick_check(fmls, 20000000, 120000)) == "unsat":
                 self.notes.append("sum-congruence lemma applied (pointwise premise proved by z3)")
                 return total
         return None
